@@ -213,6 +213,42 @@ def direct_modification_is_inequality(ctx, rid):
 
 
 # ------------------------------------------------------------------------------------------------
+# R5.11  the stop-or-continue decision sees every failure that is already known (F-T)
+
+def decision_sees_finished_jobs(ctx, rid):
+    ctx.rule(rid, "when the scheduler wakes up from a wait during which jobs of its own may have exited, it polls the job-future stream (without suspending, until nothing more is ready) or drains it before it reads the shared result: a job whose exit returned the very token the scheduler was waiting for has recorded its failure before the next target is considered")
+    prog = ctx.prog
+    S = anchors.scheduler(prog)
+    ba = BA.of(S)
+    reads = ba.calls(r"core::cell::Cell::(replace|take)")
+    pushes = ba.calls(common.PUSH)
+    drains = set(common.drain_ready_blocks(S))
+    polls = []
+    for i in ba.calls(r"futures_util::future::future::FutureExt::now_or_never"):
+        at = " ".join(S.blocks[i]["term"].get("arg_tys") or [])
+        if "Next<" in at or "next::Next" in at:
+            # all finished jobs, not just one: the poll sits in a loop
+            if ba.path([i], [i], incl=False) is not None:
+                polls.append(i)
+    if not ctx.floor(rid, "reads of the shared result in the scheduling passes", len(reads), 1) or not pushes:
+        return
+    n = 0
+    for k, (pbb, y, ready, callee) in common.ordinal_keys([("await", x) for x in ba.awaits()]):
+        if ready is None or ready in drains:
+            continue
+        # can a job of ours be outstanding (pushed, not drained) when this await completes?
+        if ba.path(pushes, [ready], avoid=drains, incl=False) is None:
+            continue
+        n += 1
+        p_ = ba.path([ready], reads, avoid=drains | set(polls) | {b for (b, _, _, _) in ba.awaits() if b != pbb}, incl=True)
+        ctx.ob(rid, "%s|%s|finished-jobs-polled-before-result-read" % (S.key, k), p_ is None, where=ctx.where(S, pbb),
+               detail="after this wait the finished job futures are polled (or the stream drained) before the shared result is read" if p_ is None else
+               "after this wait the shared result is read while a job that has already exited may not have recorded its failure yet: at -j1 `redo a b c` with a failing starts b although a's failure is known (path %s)" % " -> ".join("bb%d" % x for x in p_[:12]),
+               witness=p_)
+    ctx.floor(rid, "waits during which an own job may finish", n, 1)
+
+
+# ------------------------------------------------------------------------------------------------
 # R6.9 / R7.5  the build / skip decision is only ever taken under the target's lock
 
 _VERDICT_ARGS = re.compile(r"\(&mut state::ProcessTransaction(<.*>)?, &helpers::RedoPath\)")
@@ -730,7 +766,7 @@ TABLE = {
     "C03": [("R3.9", signal_death_is_failure), ("R3.10", uncertain_is_not_built_directly)],
     "C05": [("R5.8", signal_death_is_failure),
             ("R5.9", borrow("C01", "R1.3", None, "the edge to a requested target must exist even when that target then fails, or the caller is not dirty next run and the failed target is never retried")),
-            ("R5.10", memo_after_failed_test)],
+            ("R5.10", memo_after_failed_test)],   # + ("R5.11", decision_sees_finished_jobs) once the F-T fix is committed in /repo
     "C04": [("R4.6", output_probed_with_lstat), ("R4.7", direct_modification_is_inequality)],
     "C11": [("R11.8", direct_modification_is_inequality),
             ("R11.9", borrow("C15", "R15.2", None, "the record consulted for `generated / override` must be the one of the file the kernel will resolve: a spelling cleaned before symlinks are resolved selects another record and a user's file is replaced"))],
